@@ -45,6 +45,23 @@ impl crate::KeyBuilder for OracleKb {
     }
 }
 
+/// every key maps to index (k % 4) with conflict hash k + 1: distinct keys collide on the index
+#[derive(Default)]
+struct Colliding;
+impl crate::KeyBuilder for Colliding {
+    type Key = u64;
+    fn hash_index<Q>(&self, key: &Q) -> u64 where u64: core::borrow::Borrow<Q>, Q: core::hash::Hash + Eq + ?Sized {
+        let mut h = crate::TransparentHasher::default();
+        key.hash(&mut h);
+        std::hash::Hasher::finish(&h) % 4
+    }
+    fn hash_conflict<Q>(&self, key: &Q) -> u64 where u64: core::borrow::Borrow<Q>, Q: core::hash::Hash + Eq + ?Sized {
+        let mut h = crate::TransparentHasher::default();
+        key.hash(&mut h);
+        std::hash::Hasher::finish(&h) + 1
+    }
+}
+
 #[test]
 fn cache_at_quiescence_matches_model() {
     if !only("cache_at_quiescence_matches_model") { return; }
@@ -199,23 +216,6 @@ fn cache_at_quiescence_matches_model() {
 }
 
 
-/// every key maps to index (k % 4) with conflict hash k + 1: distinct keys collide on the index
-#[derive(Default)]
-struct Colliding;
-impl crate::KeyBuilder for Colliding {
-    type Key = u64;
-    fn hash_index<Q>(&self, key: &Q) -> u64 where u64: core::borrow::Borrow<Q>, Q: core::hash::Hash + Eq + ?Sized {
-        let mut h = crate::TransparentHasher::default();
-        key.hash(&mut h);
-        std::hash::Hasher::finish(&h) % 4
-    }
-    fn hash_conflict<Q>(&self, key: &Q) -> u64 where u64: core::borrow::Borrow<Q>, Q: core::hash::Hash + Eq + ?Sized {
-        let mut h = crate::TransparentHasher::default();
-        key.hash(&mut h);
-        std::hash::Hasher::finish(&h) + 1
-    }
-}
-
 #[test]
 fn colliding_keys_stay_isolated() {
     if !only("colliding_keys_stay_isolated") { return; }
@@ -235,7 +235,12 @@ fn colliding_keys_stay_isolated() {
                 0 => { c.remove(&k); script.push(format!("remove({})", k)); if owner.get(&idx).map_or(false, |o| o.0 == k) { owner.remove(&idx); } }
                 1 => { let r = c.get(&k).map(|x| *x.value()); script.push(format!("get({}) -> {:?}", k, r));
                        let want = owner.get(&idx).filter(|o| o.0 == k).map(|o| o.1);
-                       if r != want { fail("colliding_keys_stay_isolated", "C18:store.get.conflict", &["C18", "C02"], "ShardedMap::get", script.join("; "), format!("{:?}", r), format!("{:?}", want)); let _ = c.close(); return; } }
+                       if r != want { fail("colliding_keys_stay_isolated", "C18:store.get.conflict", &["C18", "C02"], "ShardedMap::get", script.join("; "), format!("{:?}", r), format!("{:?}", want)); let _ = c.close(); return; }
+                       // every lookup flavour checks the conflict hash: get_ttl and get_mut of a key that only shares its index with a resident one find nothing
+                       let t = c.get_ttl(&k); let m = c.get_mut(&k).map(|x| *x.value());
+                       if t.is_some() != want.is_some() || m != want {
+                           script.push(format!("get_ttl({}) -> {:?}; get_mut({}) -> {:?}", k, t, k, m));
+                           fail("colliding_keys_stay_isolated", "C03:cache.get_ttl.only-live", &["C18", "C02", "C03"], "Cache::get_ttl", script.join("; "), format!("get_ttl {:?}, get_mut {:?}", t, m), format!("{}", if want.is_some() { "Some(..) for both: the key is resident" } else { "None for both: only a colliding key is resident" })); let _ = c.close(); return; } }
                 _ => { v += 1; let cost = 1 + rng.below(4) as i64; let r = c.insert(k, v, cost); script.push(format!("insert({}, {}, cost {}) -> {}", k, v, cost, r));
                        // a colliding resident key keeps the slot; only the owner (or an empty slot) is written
                        if r && owner.get(&idx).map_or(true, |o| o.0 == k) { owner.insert(idx, (k, v)); owner_cost.insert(idx, cost); } }
@@ -609,6 +614,11 @@ fn extreme_configurations_work() {
                     macro_rules! settle { ($what:expr) => {{ let mut ok = false; for _ in 0..200 { if c.wait().is_ok() { ok = true; break; } std::thread::sleep(Duration::from_millis(1)); } if !ok { return format!("wait() keeps failing after {}", $what); } }}; }
                     for k in 0..3u64 { c.insert(k, k, 1); settle!("an insert"); }
                     let _ = c.get(&0); let _ = c.get(&7);
+                    // buffer_items 0 = "do not batch lookups": each one is handed to the policy at once (kept or dropped, never held back)
+                    if bi == 0 && metrics {
+                        let seen = c.metrics.get_gets_kept().unwrap_or(0) + c.metrics.get_gets_dropped().unwrap_or(0);
+                        if seen != 2 { return format!("buffer_items 0: {} of 2 lookups were handed to the policy (gets_kept + gets_dropped)", seen); }
+                    }
                     c.insert(0, 100, 1); settle!("an update");
                     c.insert_with_ttl(5, 5, 1, Duration::from_millis(1)); settle!("a TTL insert");
                     std::thread::sleep(Duration::from_millis(20));
